@@ -448,6 +448,7 @@ class Engine:
         self.notes = []
         self._branch_solver = None
         self.cover = {}  # cover label -> reached?
+        self.canaries = {}
 
     # ---------------- path state -----------------
     def _reset_path(self, prefix):
@@ -463,6 +464,8 @@ class Engine:
         self.path_id = self.paths
         self.loop_ctx = []  # active cut loops
         self.exc_stack = []
+        self._pure_guard = []
+        self._assume_safety = False
         self.seq_facts = {}
         self._inst_seen = set()
         self._in_inst = 0
@@ -570,6 +573,43 @@ class Engine:
         if not isinstance(f, SBool):
             raise EngineError("assume of non-bool %r" % (f,))
         self.pc.append(f.t)
+        self._learn_concat(f.t)
+
+    def _learn_concat(self, t):
+        """X == A ++ B (X a sequence constant): element-wise consequences as instantiable facts
+        (X[j] == A[j] for j < |A|, X[|A|+j] == B[j] for j < |B|) - spares the seq solver nth-over-concat."""
+        from .contract import ForAll
+
+        try:
+            if z3.is_and(t):
+                for ch in t.children():
+                    self._learn_concat(ch)
+                return
+            if not z3.is_eq(t):
+                return
+            a, b = t.arg(0), t.arg(1)
+            if not z3.is_seq(a):
+                return
+            if z3.is_app_of(a, z3.Z3_OP_SEQ_CONCAT) and not z3.is_app_of(b, z3.Z3_OP_SEQ_CONCAT):
+                a, b = b, a
+            if not (z3.is_const(a) and a.decl().kind() == z3.Z3_OP_UNINTERPRETED and z3.is_app_of(b, z3.Z3_OP_SEQ_CONCAT)):
+                return
+            elem = "bool" if a.sort().basis() == z3.BoolSort() else "int"
+            X = SSeq(a, elem, "list")
+            parts = b.children()
+            off = z3.IntVal(0)
+            for part in parts:
+                P = SSeq(part, elem, "list")
+                o = SInt(off)
+                ln = SInt(z3.Length(part))
+
+                def fact(j, P=P, o=o, ln=ln):
+                    return V.Implies(V.And(j >= o, j < o + ln), V.eq(V.nth(X, j), V.nth(P, j - o)))
+
+                self.register_forall(ForAll(fact, over=X))
+                off = off + z3.Length(part)
+        except z3.Z3Exception:
+            return
 
     def oblig(self, kind, label, goal, props=None, assume_after=True, fuc=None):
         """emit obligation  PC => goal"""
@@ -595,6 +635,20 @@ class Engine:
             if goal is False:
                 raise PathEnd()
             self.pc.append(g)
+
+    def canary(self, where):
+        """vacuity guard: `False` must NOT be provable here (some path condition reaching `where` is satisfiable)"""
+        if self.canaries.get(where):
+            return
+        s = z3.Solver()
+        s.set("timeout", 10000)
+        for t in self.pc:
+            s.add(t)
+        r = s.check()
+        if r == z3.sat:
+            self.canaries[where] = True
+        else:
+            self.canaries.setdefault(where, False)
 
     def _solver(self):
         if self._branch_solver is None:
@@ -793,6 +847,13 @@ class Engine:
         cond = V.simplify_bool(cond)
         if cond is True:
             return
+        if self._assume_safety:
+            # re-evaluation of an element expression on the normal path: no element raised
+            if cond is False:
+                self.pc.append(z3.BoolVal(False))
+            else:
+                self.pc.append(cond.t)
+            return
         if self.allows(exc_cls) or self._in_try_catching(exc_cls):
             if self.branch(cond):
                 return
@@ -839,6 +900,7 @@ class Engine:
                 self.worklist = [[]]
                 self.paths = 0
                 self.cover = {}
+                self.canaries = {}
                 while self.worklist:
                     prefix = self.worklist.pop()
                     self._run_path(fr, prefix)
@@ -883,6 +945,7 @@ class Engine:
         ctx = self.ctx
         if outcome[0] == "return":
             self.cover["normal-exit"] = True
+            self.canary("normal-exit")
             for kind, label, f, props in c.eval_ensures(ctx, old, bound, outcome[1]):
                 self.prove_item(kind, label, f, props=props, assume_after=False)
         else:
@@ -1577,6 +1640,7 @@ class Engine:
                     self.loop_ctx.pop()
             if kind == "for":
                 L.i = L.i + 1
+            self.canary("loop-body:" + key)
             for label, f in spec.eval_inv(ctx, L):
                 self.prove_item("inv.keep", "%s.%s" % (spec.name, label), f, assume_after=False)
             if var0 is not None:
@@ -1857,14 +1921,31 @@ class Engine:
         if len(n.generators) != 1:
             raise EngineError("nested comprehension")
         g = n.generators[0]
-        it = self.eval(g.iter)
-        spec = self.contract.comp_spec_for(self.frame.func.key if self.frame.func else "?", n)
+        fkey = self.frame.func.key if self.frame.func else "?"
+        ck = self.frame.__dict__.setdefault("comp_ord", 0)
+        self.frame.comp_ord = ck + 1
+        key = "%s#comp%d" % (fkey, ck)
+        spec = self.contract.loop_spec_for(key, None)
         if spec is not None:
-            return spec(self.ctx, self, n, it)
-        items = self.static_items(it, "comprehension")
+            # impure comprehension: desugared to  __compN = []; for target in iter: __compN.append(elt)
+            # and verified like any loop with an invariant
+            tmp = "__comp%d" % ck
+            self.frame.env[tmp] = self.new_list([])
+            call = ast.Expr(ast.Call(func=ast.Attribute(value=ast.Name(id=tmp, ctx=ast.Load()), attr="append", ctx=ast.Load()), args=[n.elt], keywords=[]))
+            loop = ast.For(target=g.target, iter=g.iter, body=[call] if not g.ifs else [ast.If(test=ast.BoolOp(op=ast.And(), values=list(g.ifs)) if len(g.ifs) > 1 else g.ifs[0], body=[call], orelse=[])], orelse=[])
+            ast.copy_location(loop, n)
+            ast.fix_missing_locations(loop)
+            it = self.eval(g.iter)
+            self._cut_loop(loop, key, spec, kind="for", it=it)
+            return self.frame.env.pop(tmp)
+        it = self.eval(g.iter)
+        try:
+            items = self.static_items_noforce(it)
+        except EngineError:
+            items = None
+        if items is None:
+            return self._symbolic_pure_comprehension(n, g, it, key)
         out = []
-        env = self.frame.env
-        saved = dict(env)
         for x in items:
             self.assign(g.target, x)
             ok = True
@@ -1874,10 +1955,98 @@ class Engine:
                     break
             if ok:
                 out.append(self.eval(n.elt))
-        # comprehension variables do not leak
-        for t in self._assigned_names([ast.Expr(g.target)]) if False else []:
-            pass
         return self.new_list(out)
+
+    def static_items_noforce(self, it):
+        """like static_items but refuses (returns None) instead of forking on a symbolic length"""
+        if isinstance(it, RangeV):
+            if is_sym(it.start) or is_sym(it.stop) or is_sym(it.step):
+                return None
+        if isinstance(it, (EnumerateV,)):
+            inner = self.static_items_noforce(it.it)
+            return None if inner is None else [(i + it.start, x) for i, x in enumerate(inner)]
+        if isinstance(it, ZipV):
+            cols = [self.static_items_noforce(x) for x in it.its]
+            return None if any(c is None for c in cols) else list(zip(*cols))
+        if isinstance(it, SSeq):
+            return None
+        if isinstance(it, Ref) and self.kind(it) in ("list", "bytearray") and isinstance(self.heap[it.id]["items"], SSeq):
+            return None
+        return self.static_items(it)
+
+    def _symbolic_pure_comprehension(self, n, g, it, key):
+        """[elt for x in <iteration space of symbolic length>] where elt has no side effect:
+        result r with |r| = length and, for every index j, r[j] == elt evaluated at the j-th element
+        (the element expression of the REAL code is re-evaluated at every index the proof needs)."""
+        from .contract import ForAll
+
+        if g.ifs:
+            raise EngineError("filtered comprehension over a symbolic iteration space (%s)" % key)
+        L = LoopCtx(self, key, n, "for", it, self.frame.env)
+        L.prepare_iterable()
+        length = L.n
+        env = self.frame.env
+        saved = {nm: env.get(nm, _MISSING) for nm in self._assigned_names([ast.Expr(g.target)])}
+        # the element expression is re-evaluated later (at instantiation points) in the state of *now*
+        cap_frame = Frame(self.frame.func, dict(env), self.frame.module)
+        cap_heap = dict(self.heap)
+
+        def eval_at(j, assume_safe):
+            cur_heap = self.heap
+            self.heap = dict(cap_heap)
+            self.frames.append(cap_frame)
+            mark_id = self.next_id
+            old_mode = self._assume_safety
+            self._assume_safety = assume_safe
+            saved_loop_ctx = self.loop_ctx
+            self.loop_ctx = []
+            try:
+                self.assign(g.target, L.element(j))
+                v = self.eval(n.elt)
+                for oid, cell in self.heap.items():
+                    if oid < mark_id and cap_heap.get(oid) is not cell:
+                        raise EngineError("comprehension %s has side effects: give it a loop invariant" % key)
+            finally:
+                self._assume_safety = old_mode
+                self.loop_ctx = saved_loop_ctx
+                self.frames.pop()
+                self.heap = cur_heap
+            return v
+
+        # 1. probe at an arbitrary index: safety obligations / exceptional exits of the element expression
+        k = self.fresh_int("k@" + key.split("#")[-1])
+        mark = len(self.pc)
+        self.pc.append(z3.And(k.t >= 0, k.t < V._zi(length)))
+        v0 = eval_at(k, False)
+        del self.pc[mark:]
+        if isinstance(v0, (Ref, tuple)) or v0 is None:
+            raise EngineError("comprehension %s yields non-scalar elements" % key)
+        elem = "bool" if isinstance(v0, (bool, SBool)) else "int"
+        res = self.fresh_seq("comp", elem, "list")
+        self.pc.append(z3.Length(res.t) == z3.If(V._zi(length) >= 0, V._zi(length), 0))
+
+        def fact(j):
+            m = len(self.pc)
+            self.pc.append(z3.And(V._zi(j) >= 0, V._zi(j) < V._zi(length)))
+            v = eval_at(j, True)
+            side = self.pc[m + 1:]
+            del self.pc[m:]
+            body = V.eq(V.nth(res, j), v)
+            conj = z3.And(*side, V._zb(body)) if side else V._zb(body)
+            return SBool(z3.Implies(z3.And(V._zi(j) >= 0, V._zi(j) < V._zi(length)), conj))
+
+        self.register_forall(ForAll(fact, over=res))
+        # boundary instances (first / last element): what "no element raised" means for sizes
+        for j in (0, length - 1):
+            f = fact(j)
+            if isinstance(f, SBool):
+                self.pc.append(f.t)
+        for nm, val in saved.items():
+            if val is _MISSING:
+                env.pop(nm, None)
+            else:
+                env[nm] = val
+        return self.new_list(res)
 
     def ex_GeneratorExp(self, n):
         return self.ex_ListComp(n)
@@ -1889,6 +2058,9 @@ class Engine:
         v = self.eval(n.value)
         self.assign(n.target, v)
         return v
+
+
+_MISSING = object()
 
 
 class PyObjV:
@@ -1971,6 +2143,14 @@ def eng_seq_view(eng, v):
 
 
 def eng_elem(eng, inner, seq, i):
+    if isinstance(seq, SSeq) and seq.py == "str":
+        e = V.nth(seq, i)
+        return SSeq(z3.Unit(e.t), "char", "str")
+    if isinstance(seq, str):
+        if is_sym(i):
+            e = V.nth(V.to_seq(seq), i)
+            return SSeq(z3.Unit(e.t), "char", "str")
+        return seq[i]
     if isinstance(seq, tuple):
         if is_sym(i):
             # concrete spine, symbolic index: elements may be heterogeneous (e.g. refs): not supported
